@@ -601,7 +601,7 @@ Definition store_fault_in_call (t : list tev) (i : N) : bool :=
 Definition pending_keys (m : list (N * list N)) : list N :=
   map fst (filter (fun kv => (in_alo (fst kv) || in_eo (fst kv)) && genuine_rec (snd kv)) m).
 
-Definition adopt_step (t : list tev) (st : bool * bool) (m : list (N * list N)) (e : tev) : (bool * bool) * bool :=
+Definition adopt_step (lenient : bool) (t : list tev) (st : bool * bool) (m : list (N * list N)) (e : tev) : (bool * bool) * bool :=
   (* st = (damaged since the last adoption?, client identifier record unusable?) *)
   match e with
   | TStore _ m' =>
@@ -621,14 +621,15 @@ Definition adopt_step (t : list tev) (st : bool * bool) (m : list (N * list N)) 
   | TRet i OpRead (RetErr er) _ _ _ =>
     (* C16: after an adoption, connecting never fails on the session's own records ("gone missing",
        "record unavailable" are class-less errors), except when the client identifier record is unusable (F15) *)
-    (st, negb (er =? 1) || snd st || store_fault_in_call t i)
+    (st, negb (er =? 1) || (lenient && snd st) || store_fault_in_call t i)
   | _ => (st, true)
   end.
 
-Definition c16_ok (h : histcase) : bool :=
+Definition c16_gen (lenient : bool) (h : histcase) : bool :=
   let t := trace_of h in
-  no_panic t && fold_trace (adopt_step t) (false, false) [] t.
-Definition c02_ok (h : histcase) : bool := c16_ok h && c01_ok h && c05_ok h.
+  no_panic t && fold_trace (adopt_step lenient t) (false, false) [] t.
+Definition c16_ok := c16_gen false.
+Definition c02_ok (h : histcase) : bool := c16_gen true h && c01_ok h && c05_ok h.
 
 (* F15 (recorded finding): the client identifier record is damaged or removed *)
 Definition f15_match (h : histcase) : bool :=
@@ -646,8 +647,8 @@ Fixpoint idx_known (f : histcase -> bool) (ok : histcase -> bool) (l : list hist
   | x :: r => if negb (ok x && hist_agree x) && f x then (i, tag) :: idx_known f ok r (i + 1) tag else idx_known f ok r (i + 1) tag
   end.
 Definition c16_run (l : list histcase) : list N * list N * list (N * N) :=
-  (idx_filter hist_agree l 0, idx_filter c16_ok l 0, idx_known f15_match c16_ok l 0 15).
-Definition all3_ok (h : histcase) : bool := all2_ok h && c13_ok h && c14_ok h && c16_ok h.
+  (idx_filter hist_agree l 0, idx_filter c16_ok l 0, idx_known (fun h => c16_gen true h && f15_match h) c16_ok l 0 15).
+Definition all3_ok (h : histcase) : bool := all2_ok h && c13_ok h && c14_ok h && c16_gen true h.
 Definition all3_run := hist_run all3_ok.
 
 (* ------------------------------------------------------------------ *)
@@ -666,3 +667,195 @@ Definition c15s_ok (h : histcase) : bool :=
                     | TEv i (QLoad k) (AVal (Some v)) => genuine_rec v || call_failed t i
                     | _ => true end) t.
 Definition c15s_run := hist_run c15s_ok.
+
+(* ------------------------------------------------------------------ *)
+(* C12 (sequential part): closed is final                               *)
+
+Record cl := mkCl {
+  cl_closed : bool;            (* a Close/Disconnect returned in this process *)
+  cl_term : bool;              (* a ReadSlices reported ErrClosed since *)
+  cl_open_x : list N;          (* exchanges accepted and not yet closed *)
+  cl_lastbig : bool;           (* the last ReadSlices returned a BigMessage that was not read *)
+  cl_reads_after : N           (* ReadSlices calls since the close *)
+}.
+
+Definition last_out_packet (t : list tev) (c : N) : option packet :=
+  last (map Some (fst (packets_of (out_bytes c t)))) None.
+
+(* [lenient]: tolerate the recorded finding F23 *)
+Definition cl_step (lenient : bool) (t : list tev) (s : cl) (m : list (N * list N)) (e : tev) : cl * bool :=
+  match e with
+  | TRet i o r done xev online =>
+    let opened := match r with RetExch x => [x] | _ => [] end in
+    let closed_now := flat_map (fun xe => match snd xe with None => [fst xe] | Some _ => [] end) xev in
+    let s1 := mkCl (cl_closed s) (cl_term s) (filter (fun x => negb (mem x closed_now)) (cl_open_x s ++ opened))
+                   (match o, r with OpRead, RetBig _ _ => true | OpRead, _ => false | OpReadAll, _ => false | _, _ => cl_lastbig s end)
+                   (cl_reads_after s) in
+    match o with
+    | OpAdopt _ _ => match r with RetAdopt _ 0 => (mkCl false false [] false 0, true) | _ => (s1, true) end
+    | OpClose =>
+      (mkCl true (cl_term s1) (cl_open_x s1) (cl_lastbig s) 0,
+       match r with RetErr er => (if cl_closed s then er =? 0 else true) && negb online | _ => false end)
+    | OpDisconnect =>
+      (mkCl true (cl_term s1) (cl_open_x s1) (cl_lastbig s) 0,
+       match r with
+       | RetErr er => (if cl_closed s then has_bit er 2 else true) && negb online
+       | _ => false end)
+    | _ =>
+      if cl_closed s then
+        let okret :=
+          match o, r with
+          | OpRead, RetErr er =>
+            has_bit er 2 || (lenient && (((cl_reads_after s =? 0) && cl_lastbig s && negb (er =? 0)) || has_bit er 65536))
+          | OpRead, _ => false
+          | (OpPublish _ _ _ | OpSub _ _ | OpUnsub _ | OpPing), RetErr er => has_bit er 2 || has_bit er 256
+          | OpPubP _ _ _ _, RetErr er => has_bit er 2 || has_bit er 256
+          | (OpPublish _ _ _ | OpSub _ _ | OpUnsub _ | OpPing | OpPubP _ _ _ _), _ => false
+          | _, _ => true
+          end in
+        (* once ReadSlices reported ErrClosed: every pending exchange got ErrClosed and stays open *)
+        let term_now := match o, r with OpRead, RetErr er => has_bit er 2 | _, _ => false end in
+        let exch_ok :=
+          if term_now && negb (cl_term s) then
+            forallb (fun x => existsb (fun xe => (fst xe =? x) && match snd xe with Some er => has_bit er 2 | None => false end) xev)
+                    (cl_open_x s)
+          else true in
+        let no_close_after := if cl_term s then forallb (fun xe => match snd xe with None => false | Some _ => true end) xev else true in
+        (mkCl true (cl_term s || term_now) (cl_open_x s1) (cl_lastbig s1)
+              (match o with OpRead => cl_reads_after s + 1 | _ => cl_reads_after s end),
+         okret && exch_ok && no_close_after && negb online)
+      else (s1, true)
+    end
+  | _ => (s, true)
+  end.
+
+(* a successful Disconnect makes DISCONNECT the last packet on its connection *)
+Definition disconnect_last (t : list tev) : bool :=
+  forallb (fun e => match e with
+                    | TRet i OpDisconnect (RetErr 0) _ _ _ =>
+                      existsb (fun c => match last_out_packet t c with Some PDisconnect => true | _ => false end) (conns t)
+                    | _ => true end) t.
+
+Definition c12_gen (lenient : bool) (h : histcase) : bool :=
+  let t := trace_of h in
+  no_panic t && disconnect_last t && fold_trace (cl_step lenient t) (mkCl false false [] false 0) [] t.
+Definition c12_ok := c12_gen false.
+Definition c12_run (l : list histcase) : list N * list N * list (N * N) :=
+  (idx_filter hist_agree l 0, idx_filter c12_ok l 0, idx_known (c12_gen true) c12_ok l 0 23).
+
+(* ------------------------------------------------------------------ *)
+(* C10 (sequential part): failed connections are left and redialed; back-off bounds  *)
+
+Definition first_req_in_call (t : list tev) (i : N) : option req :=
+  match filter (fun e => match e with TEv j _ _ => j =? i | _ => false end) t with
+  | TEv _ q _ :: _ => Some q
+  | _ => None
+  end.
+
+Record rd10 := mkRd { rd_offline : bool; rd_closed : bool; rd_await : list N; rd_nextr : N; rd_online : bool }.
+
+Definition rd_step (h : histcase) (t : list tev) (s : rd10) (m : list (N * list N)) (e : tev) : rd10 * bool :=
+  match e with
+  | TRet i o r done _ online =>
+    let await := filter (fun rid => negb (existsb (fun d => fst (fst d) =? rid) done)) (rd_await s) in
+    let rid := rd_nextr s in
+    let nextr := if spawn_op o then rid + 1 else rd_nextr s in
+    (* a request that was written while online and now waits for its response *)
+    let await := match r with
+                 | RetParked => if spawn_op o && rd_online s then rid :: await else await
+                 | _ => await end in
+    let s' := mkRd (rd_offline s) (rd_closed s) await nextr online in
+    match o with
+    | OpAdopt _ _ => match r with RetAdopt _ 0 => (mkRd true false [] 0 false, true) | _ => (s', true) end
+    | OpClose | OpDisconnect => (mkRd (rd_offline s) true await nextr online, true)
+    | OpRead =>
+      (* the failure was noticed earlier (offline): this call dials again *)
+      let redial := if rd_offline s && negb (rd_closed s)
+                    then match first_req_in_call t i with Some (QLoad 0) => true | _ => false end
+                    else true in
+      (* going offline releases every request pending on that connection *)
+      let released := if negb online && negb (rd_closed s) then match await with [] => true | _ => false end else true in
+      (mkRd (negb online) (rd_closed s) await nextr online, redial && released)
+    | OpReadBackoff er =>
+      let wmin := s_wmin (cfg_of h) in let wmax := s_wmax (cfg_of h) in
+      (s', match r with
+           | RetWait 1 _ => has_bit er 2                                   (* nil channel only for ErrClosed *)
+           | RetWait 2 ms => negb (has_bit er 2) && ((ms =? 1000) || ((wmin <=? ms) && (ms <=? wmax)))
+           | RetWait 0 _ => (er =? 0) || negb (has_bit er 2)               (* released: no error, BigMessage, or a zero wait *)
+           | _ => false end)
+    | _ => (s', true)
+    end
+  | _ => (s, true)
+  end.
+
+Definition c10_ok (h : histcase) : bool :=
+  let t := trace_of h in
+  no_panic t && fold_trace (rd_step h t) (mkRd true false [] 0 false) [] t.
+Definition c10_run := hist_run c10_ok.
+
+(* ------------------------------------------------------------------ *)
+(* C11 (sequential part): every request gets its own response          *)
+
+(* every SUBACK read so far with that identifier (a hostile broker may send several) *)
+Definition subacks_for (t : list tev) (pid : N) : list (list N) :=
+  flat_map (fun p => match p with PSuback id codes => if id =? pid then [codes] else [] | _ => [] end) (inbound_packets t).
+Definition unsuback_for (t : list tev) (pid : N) : bool :=
+  existsb (fun p => match p with PUnsuback id => id =? pid | _ => false end) (inbound_packets t).
+Definition pingresp_seen (t : list tev) : bool :=
+  existsb (fun p => match p with PPingresp => true | _ => false end) (inbound_packets t).
+
+Fixpoint failed_of (fs : list (list N)) (codes : list N) : list (list N) :=
+  match fs, codes with
+  | f :: fs', cd :: cs' => if cd =? 128 then f :: failed_of fs' cs' else failed_of fs' cs'
+  | _, _ => []
+  end.
+
+Inductive rq := RqSub (pid : N) (fs : list (list N)) | RqUnsub (pid : N) | RqPing | RqOther.
+Record rq11 := mkRq { rq_nextr : N; rq_reqs : list (N * rq) }.
+
+Definition listlist_eqb (a b : list (list N)) : bool :=
+  (length a =? length b)%nat && forallb (fun ab => list_eqb (fst ab) (snd ab)) (combine a b).
+
+Definition rq_step (t : list tev) (s : rq11) (m : list (N * list N)) (e : tev) : rq11 * bool :=
+  match e with
+  | TRet i o r done _ _ =>
+    (* each completion is justified by the response to that very request *)
+    let ok := forallb (fun d =>
+      let '(rid, er, failed) := d in
+      match filter (fun x => fst x =? rid) (rq_reqs s) with
+      | (_, RqSub pid fs) :: _ =>
+        if er =? 0 then
+          existsb (fun codes => (length codes =? length fs)%nat && forallb (fun cd => negb (cd =? 128)) codes)
+                  (subacks_for (upto_call i t) pid)
+        else if has_bit er 2048 then
+          existsb (fun codes => (length codes =? length fs)%nat && listlist_eqb failed (failed_of fs codes))
+                  (subacks_for (upto_call i t) pid)
+        else true
+      | (_, RqUnsub pid) :: _ => if er =? 0 then unsuback_for (upto_call i t) pid else true
+      | (_, RqPing) :: _ => if er =? 0 then pingresp_seen (upto_call i t) else true
+      | _ => true
+      end) done in
+    match o with
+    | OpAdopt _ _ => match r with RetAdopt _ 0 => (mkRq 0 [], ok) | _ => (s, ok) end
+    | _ =>
+      if spawn_op o then
+        let rid := rq_nextr s in
+        let what := match o, flat_map (fun p => match p with
+                                                | PSubscribe id fs => [RqSub id (map fst fs)]
+                                                | PUnsubscribe id _ => [RqUnsub id]
+                                                | PPingreq => [RqPing]
+                                                | _ => [] end) (packets_in_call t i) with
+                    | (OpSub _ _ | OpUnsub _ | OpPing), x :: _ => x
+                    | _, _ => RqOther end in
+        (mkRq (rid + 1) ((rid, what) :: rq_reqs s), ok)
+      else (s, ok)
+    end
+  | _ => (s, true)
+  end.
+
+Definition c11_ok (h : histcase) : bool :=
+  let t := trace_of h in
+  no_panic t && c14_ok h && fold_trace (rq_step t) (mkRq 0 []) [] t.
+Definition c11_run := hist_run c11_ok.
+Definition all4_ok (h : histcase) : bool := all3_ok h && c10_ok h && c11_ok h && c12_gen true h.
+Definition all4_run := hist_run all4_ok.
